@@ -139,10 +139,12 @@ fn evaluate_do_block_expr(
             source.clone(),
         )?;
 
-        // Set lambda name if assigning a lambda
+        // Name a lambda after the first binding it is given; an alias must not rename it
         if let Value::Lambda(lambda_ptr) = val {
             let mut borrowed_heap = heap.borrow_mut();
-            if let Some(HeapValue::Lambda(lambda_def)) = borrowed_heap.get_mut(lambda_ptr.index()) {
+            if let Some(HeapValue::Lambda(lambda_def)) = borrowed_heap.get_mut(lambda_ptr.index())
+                && lambda_def.name.is_none()
+            {
                 lambda_def.name = Some(ident.clone());
             }
         }
@@ -411,11 +413,12 @@ pub fn evaluate_ast(
                 ));
             }
 
-            // Set lambda name if assigning a lambda
+            // Name a lambda after the first binding it is given; an alias must not rename it
             if let Value::Lambda(lambda_ptr) = val {
                 let mut borrowed_heap = heap.borrow_mut();
                 if let Some(HeapValue::Lambda(lambda_def)) =
                     borrowed_heap.get_mut(lambda_ptr.index())
+                    && lambda_def.name.is_none()
                 {
                     lambda_def.name = Some(ident.clone());
                 }
